@@ -34,6 +34,7 @@ LitStart == 4     \* position of the first byte of the literal body in Text (dq 
 AlphaSet ==
   CASE Alpha = "dq"  -> {cBS, cDQ, cNL, cDOLLAR, cLB, cRB, cCOLON, cMINUS, 49, 51, 55, 56, 120, 110, 97, 86, 85, 113}
     [] Alpha = "octal" -> {cBS, cDQ, 49, 51, 55, 56}                 \* \ " 1 3 7 8
+    [] Alpha = "octal6" -> {cBS, cDQ, 49, 51, 56}                    \* \ " 1 3 8 : digit runs of four and more, closed
     [] Alpha = "slash" -> {cSLASH, cHASH, cSTAR, 113, cSP, cNL, cDQ, cEQ}
     [] Alpha = "envbody" -> {86, 85, 69, 113, cCOLON, cMINUS, cDOLLAR}      \* V U E q : - $
     [] Alpha = "dqlines" -> {cBS, cDQ, cNL, cSP, 113, cHASH}
